@@ -12,6 +12,32 @@ import (
 	"path"
 )
 
+// currentDirAttrs returns the directory's current attributes for post_op_attr,
+// or nil (attributes_follow = FALSE) when they cannot be obtained. A handle's
+// node only holds the attributes seen when the handle was issued.
+func (h *NFSProcedureHandler) currentDirAttrs(node *NFSNode) *NFSAttrs {
+	attrs, err := h.server.handler.GetAttr(node)
+	if err != nil {
+		return nil
+	}
+	return attrs
+}
+
+// encodeStatusWithPostOp encodes status + post_op_attr (present only if attrs != nil).
+func encodeStatusWithPostOp(reply *RPCReply, status uint32, attrs *NFSAttrs) *RPCReply {
+	if attrs == nil {
+		return nfsErrorWithPostOp(reply, status)
+	}
+	var buf bytes.Buffer
+	xdrEncodeUint32(&buf, status)
+	xdrEncodeUint32(&buf, 1)
+	if err := encodeFileAttributes(&buf, attrs); err != nil {
+		return nfsErrorWithPostOp(reply, NFSERR_IO)
+	}
+	reply.Data = buf.Bytes()
+	return reply
+}
+
 // handleLookup handles NFSPROC3_LOOKUP - look up filename
 func (h *NFSProcedureHandler) handleLookup(body io.Reader, reply *RPCReply, authCtx *AuthContext) (*RPCReply, error) {
 	handleVal, err := xdrDecodeFileHandle(body)
@@ -39,22 +65,7 @@ func (h *NFSProcedureHandler) handleLookup(body io.Reader, reply *RPCReply, auth
 	node.mu.RUnlock()
 
 	if !isDir {
-		// R4: Copy attrs under RLock
-		node.mu.RLock()
-		if node.attrs == nil {
-			node.mu.RUnlock()
-			return nfsErrorWithPostOp(reply, NFSERR_IO), nil
-		}
-		nodeAttrsCopy := *node.attrs
-		node.mu.RUnlock()
-		var buf bytes.Buffer
-		xdrEncodeUint32(&buf, NFSERR_NOTDIR)
-		xdrEncodeUint32(&buf, 1)
-		if err := encodeFileAttributes(&buf, &nodeAttrsCopy); err != nil {
-			return nfsErrorWithPostOp(reply, NFSERR_IO), nil
-		}
-		reply.Data = buf.Bytes()
-		return reply, nil
+		return encodeStatusWithPostOp(reply, NFSERR_NOTDIR, h.currentDirAttrs(node)), nil
 	}
 
 	lookupPath := path.Join(node.path, name)
@@ -67,22 +78,7 @@ func (h *NFSProcedureHandler) handleLookup(body io.Reader, reply *RPCReply, auth
 		if h.server.options.Debug {
 			h.server.logger.Printf("LOOKUP: '%s' not found: %v", lookupPath, err)
 		}
-		// R4: Copy attrs under RLock
-		node.mu.RLock()
-		if node.attrs == nil {
-			node.mu.RUnlock()
-			return nfsErrorWithPostOp(reply, NFSERR_IO), nil
-		}
-		nodeAttrsCopy := *node.attrs
-		node.mu.RUnlock()
-		var buf bytes.Buffer
-		xdrEncodeUint32(&buf, mapError(err))
-		xdrEncodeUint32(&buf, 1)
-		if err := encodeFileAttributes(&buf, &nodeAttrsCopy); err != nil {
-			return nfsErrorWithPostOp(reply, NFSERR_IO), nil
-		}
-		reply.Data = buf.Bytes()
-		return reply, nil
+		return encodeStatusWithPostOp(reply, mapError(err), h.currentDirAttrs(node)), nil
 	}
 
 	handle := h.server.handler.fileMap.Allocate(lookupNode)
@@ -94,9 +90,7 @@ func (h *NFSProcedureHandler) handleLookup(body io.Reader, reply *RPCReply, auth
 	lookupNode.mu.RLock()
 	lookupAttrsCopy := *lookupNode.attrs
 	lookupNode.mu.RUnlock()
-	node.mu.RLock()
-	nodeAttrsCopy := *node.attrs
-	node.mu.RUnlock()
+	dirAttrs := h.currentDirAttrs(node)
 
 	var buf bytes.Buffer
 	xdrEncodeUint32(&buf, NFS_OK)
@@ -105,9 +99,13 @@ func (h *NFSProcedureHandler) handleLookup(body io.Reader, reply *RPCReply, auth
 	if err := encodeFileAttributes(&buf, &lookupAttrsCopy); err != nil {
 		return nfsErrorWithPostOp(reply, NFSERR_IO), nil
 	}
-	xdrEncodeUint32(&buf, 1)
-	if err := encodeFileAttributes(&buf, &nodeAttrsCopy); err != nil {
-		return nfsErrorWithPostOp(reply, NFSERR_IO), nil
+	if dirAttrs != nil {
+		xdrEncodeUint32(&buf, 1)
+		if err := encodeFileAttributes(&buf, dirAttrs); err != nil {
+			return nfsErrorWithPostOp(reply, NFSERR_IO), nil
+		}
+	} else {
+		xdrEncodeUint32(&buf, 0)
 	}
 	reply.Data = buf.Bytes()
 	return reply, nil
